@@ -83,14 +83,14 @@ class MonStoch(SN.StochasticNetwork):
 
 
 def bounds(tier, seed):
-    return {"kmax": 3 if tier == "quick" else 4, "stations": [1, 2, 3], "arrivals": [0, 1, 2], "departures": [2, 3, 4], "early_departure": [False, True], "seeds": [0, 1, 2, 3, 4]}
+    return {"kmax": 3 if tier == "quick" else 5, "stations": [1, 2, 3], "arrivals": [0, 1, 2], "departures": [2, 3, 4], "early_departure": [False, True], "seeds": [0, 1, 2, 3, 4]}
 
 
 TYPES = [(a, d, e) for a in (0, 1, 2) for d in (2, 3, 4) if a < d for e in ("met", "never")]
 
 
 def space(tier, seed):
-    kmax = 3 if tier == "quick" else 4
+    kmax = 3 if tier == "quick" else 5
     items = []
     for k in range(1, kmax + 1):
         for combo in itertools.combinations_with_replacement(range(len(TYPES)), k):
